@@ -28,6 +28,9 @@ use crate::sys::{self, Route, ScriptedRng};
 
 #[derive(Debug, Clone, Serialize, Deserialize)]
 pub struct Case {
+    /// pad the circuit to 2^k - pad_delta constraints (larger domains take the
+    /// parallel code paths of the prover)
+    pub big: Option<(u32, u8)>,
     pub ops: Vec<Op>,
     pub blinders: Vec<Fe>,
     /// which single draw is changed for the metamorphic run
@@ -42,16 +45,18 @@ fn blinder() -> BoxedStrategy<Fe> {
 }
 
 fn case_strategy(t: Tier) -> BoxedStrategy<Case> {
-    let medium = t.pick(1u32, 3u32);
+    let medium = t.pick(4u32, 6u32);
     (
-        prog::ops_strategy(12, medium, 0),
+        proptest::option::weighted(0.08, (9u32..=t.pick(11u32, 12u32), 0u8..9)),
+        prop_oneof![12 => prog::ops_strategy(12, medium, 0), 1 => prog::ops_strategy(4, 1, 4)],
         proptest::collection::vec(blinder(), 14),
         0u8..14,
         fe_random(),
         proptest::collection::vec(any::<u8>(), 0..6),
         proptest::bool::weighted(0.15),
     )
-        .prop_map(|(ops, blinders, vary, vary_to, label, legacy)| Case {
+        .prop_map(|(big, ops, blinders, vary, vary_to, label, legacy)| Case {
+            big,
             ops,
             blinders,
             vary,
@@ -71,15 +76,18 @@ fn to14(b: &[Fe]) -> [F; 14] {
 }
 
 fn check(ctx: &Ctx, c: &Case) -> PResult {
-    let program = Arc::new(Program::solved(c.ops.clone()));
+    let program = match c.big {
+        Some((k, d)) => crate::checks::c01::padded_program(&c.ops, Some((k, -(d as i8))), 60000)?.0,
+        None => Arc::new(Program::solved(c.ops.clone())),
+    };
     let (composer, _) = prog::build(&program)
         .map_err(|e| Fail::new("honest-build-error", format!("{e:?}")))?;
     let snap = composer.verif_snapshot();
     let layout = Layout::from_snapshot(&snap);
     let n = layout.size();
-    let max_n = ctx.tier.pick(128, 256);
+    let max_n = ctx.tier.pick(2048, 4096);
     if n > max_n {
-        ctx.excluded("circuit too large for the O(n^2) reference prover");
+        ctx.excluded("circuit too large for the reference prover budget");
         return Ok(());
     }
     let cap = sys::min_capacity(layout.rows.len());
@@ -226,7 +234,7 @@ pub fn props() -> Vec<(Box<dyn PropDyn>, u32, u32)> {
 }
 
 pub fn describe(ctx: &Ctx) {
-    ctx.rule("cases: generated circuits (padded domain <= 128 quick / 256 thorough) x witnesses x scripted RNG streams of exactly 14 x 64 bytes whose individual draws are chosen freely (random, 0, 1, boundary values, repeated). Oracle: an independent O(n^2) reference prover applying the prescribed masks to the same witness table with the same 14 scalars must yield the byte-identical proof (so every commitment and opening = unmasked + prescribed mask); draw accounting (14 fill_bytes calls of 64 bytes, none beyond); the compiled verifier key equals the reference commitment to the layout; changing one draw changes the proof; fresh randomness shares no commitment and no evaluation. non-trivial = all 14 draws non-zero and pairwise distinct; distinct by (layout digest, stream, version)");
+    ctx.rule("cases: generated circuits (padded domain up to 2^11 quick / 2^12 thorough, about 8% of the cases padded to 2^9..2^11 rows so the prover's parallel code paths are taken) x witnesses x scripted RNG streams of exactly 14 x 64 bytes whose individual draws are chosen freely (random, 0, 1, boundary values, repeated). Oracle: an independent O(n^2) reference prover applying the prescribed masks to the same witness table with the same 14 scalars must yield the byte-identical proof (so every commitment and opening = unmasked + prescribed mask); draw accounting (14 fill_bytes calls of 64 bytes, none beyond); the compiled verifier key equals the reference commitment to the layout; changing one draw changes the proof; fresh randomness shares no commitment and no evaluation. non-trivial = all 14 draws non-zero and pairwise distinct; distinct by (layout digest, stream, version)");
     ctx.assume("structural masking only: statistical indistinguishability is not claimed (DESIGN.md section 8)");
-    ctx.assume("reference prover: harness/src/refprover.rs (naive DFT, own MSM over the public SRS bytes, reference transcript)");
+    ctx.assume("reference prover: harness/src/refprover.rs (reference transcript; naive DFT and own MSM up to domain 2^7; above that the crate's FFT kernels - decided separately by C19 against the O(n^2) definitions - and the curve library's Pippenger MSM)");
 }
